@@ -6,7 +6,7 @@
    B (Spec_Gen.v) is the textbook recursion on the knot list; it mentions neither grids nor
    windows nor midpoints.  den l_i k x = B ks p i x for every x in [g_k, g_{k+1}). *)
 From Coq Require Import List NArith ZArith Arith Bool.
-From BSpl Require Import Scalar Outcome Support Poly Spline Ops Forms Generator Interp Spec Spec_Ops Spec_Gen Proofs_Support Proofs_Scalar Proofs_Poly Proofs_Binom Proofs_Eval Proofs_Outcome Proofs_Spline Proofs_Forms Proofs_Ops Proofs_Forms2 Proofs_Interp Proofs_Pred Proofs_Gen.
+From BSpl Require Import Scalar Outcome Support Poly Spline Ops Forms Generator Interp Spec Spec_Ops Spec_Gen Proofs_Support Proofs_Scalar Proofs_Poly Proofs_Binom Proofs_Eval Proofs_Outcome Proofs_Spline Proofs_Forms Proofs_Ops Proofs_Forms2 Proofs_Interp Proofs_Pred Proofs_Gen Instances Instances_Ext Proofs_Valid Solver Pool Quad Proofs_Pool Proofs_Quad Proofs_Sites Proofs_Rounded Proofs_Threads Proofs_Updates Examples Proofs_Examples Proofs_Analysis Proofs_SupportGen Proofs_Smooth.
 Import ListNotations.
 
 
@@ -110,6 +110,97 @@ Theorem C01_partition_of_unity :
            nsum (length ks - p - 1) (fun i : nat => B ks p i x) = f1.
 Proof. exact (@Proofs_Gen.B_partition_of_unity). Qed.
 
+Theorem C01_smooth_across_knots :
+    forall (F : Type) (K : Ops F),
+           Laws K ->
+           forall (ks : list F) (p : nat) (l : list (spline F)) (i k d : nat),
+           nondecreasing ks ->
+           two_distinct ks ->
+           (nlen ks < 2 ^ 63)%N ->
+           p + 1 <= length ks ->
+           generate_bsplines p ks = Ok l ->
+           i < length l ->
+           k + 2 < length (unique ks) ->
+           d + mult ks (nth (k + 1) (unique ks) f0) <= p ->
+           jump_free (nth i l {| ssup := {| sgrid := []; sstart := 0; sstop := 0 |}; sord := 0; scoefs := [] |})
+             (N.of_nat k) d.
+Proof. exact (@Proofs_Smooth.gen_smooth). Qed.
+
+Theorem C01_smooth_at_every_grid_point :
+    forall (F : Type) (K : Ops F),
+           Laws K ->
+           forall (ks : list F) (p : nat) (l : list (spline F)) (i k d : nat),
+           nondecreasing ks ->
+           two_distinct ks ->
+           (nlen ks < 2 ^ 63)%N ->
+           p + 1 <= length ks ->
+           generate_bsplines p ks = Ok l ->
+           i < length l ->
+           k + 1 < length (unique ks) ->
+           d + mult ks (nth (k + 1) (unique ks) f0) <= p ->
+           jump_free (nth i l {| ssup := {| sgrid := []; sstart := 0; sstop := 0 |}; sord := 0; scoefs := [] |})
+             (N.of_nat k) d.
+Proof. exact (@Proofs_Smooth.gen_smooth_all). Qed.
+
+Theorem C01_continuous :
+    forall (F : Type) (K : Ops F),
+           Laws K ->
+           forall (ks : list F) (p : nat) (l : list (spline F)) (i k : nat),
+           nondecreasing ks ->
+           two_distinct ks ->
+           (nlen ks < 2 ^ 63)%N ->
+           p + 1 <= length ks ->
+           generate_bsplines p ks = Ok l ->
+           i < length l ->
+           k + 2 < length (unique ks) ->
+           mult ks (nth (k + 1) (unique ks) f0) <= p ->
+           jump_free (nth i l {| ssup := {| sgrid := []; sstart := 0; sstop := 0 |}; sord := 0; scoefs := [] |})
+             (N.of_nat k) 0.
+Proof. exact (@Proofs_Smooth.gen_continuous). Qed.
+
+Theorem C01_derivative_formula :
+    forall (F : Type) (K : Ops F),
+           Laws K ->
+           forall (ks : list F) (q : nat) (l l' : list (spline F)) (i k : nat) (u : F),
+           nondecreasing ks ->
+           two_distinct ks ->
+           (nlen ks < 2 ^ 63)%N ->
+           q + 2 <= length ks ->
+           generate_bsplines (S q) ks = Ok l ->
+           generate_bsplines q ks = Ok l' ->
+           i < length l ->
+           k + 1 < length (unique ks) ->
+           peval (pderiv (piece (nth i l dflt_spline) (N.of_nat k))) u =
+           (fofnat (S q) *
+            ((if fltb (knot ks i) (knot ks (i + q + 1))
+              then peval (piece (nth i l' dflt_spline) (N.of_nat k)) u / (knot ks (i + q + 1) - knot ks i)
+              else f0) -
+             (if fltb (knot ks (i + 1)) (knot ks (i + q + 2))
+              then
+               peval (piece (nth (i + 1) l' dflt_spline) (N.of_nat k)) u /
+               (knot ks (i + q + 2) - knot ks (i + 1))
+              else f0)))%F.
+Proof. exact (@Proofs_Smooth.B_derivative_formula). Qed.
+
+Theorem C01_smoothness_is_sharp_example :
+    forall p : nat,
+           p = 2 \/ p = 3 ->
+           exists l : list (spline Qcanon.Qc),
+             generate_bsplines p ks_smooth = Ok l /\
+             (forall i k d : nat,
+              i < length l ->
+              k + 2 < length (unique ks_smooth) ->
+              d + mult ks_smooth (nth (k + 1) (unique ks_smooth) f0) <= p ->
+              jump_free (nth i l dflt_spline) (N.of_nat k) d) /\
+             (forall k : nat,
+              k + 2 < length (unique ks_smooth) ->
+              exists i : nat,
+                i < length l /\
+                ~
+                jump_free (nth i l dflt_spline) (N.of_nat k)
+                  (p + 1 - mult ks_smooth (nth (k + 1) (unique ks_smooth) f0))).
+Proof. exact (@Proofs_Smooth.gen_smooth_qc_examples). Qed.
+
 Theorem C01_supplied_grid_route :
     forall (F : Type) (K : Ops F),
            Laws K ->
@@ -156,6 +247,11 @@ Print Assumptions C01_eval_interior.
 Print Assumptions C01_local_support.
 Print Assumptions C01_nonnegative.
 Print Assumptions C01_partition_of_unity.
+Print Assumptions C01_smooth_across_knots.
+Print Assumptions C01_smooth_at_every_grid_point.
+Print Assumptions C01_continuous.
+Print Assumptions C01_derivative_formula.
+Print Assumptions C01_smoothness_is_sharp_example.
 Print Assumptions C01_supplied_grid_route.
 Print Assumptions C01_supplied_grid_mismatch.
 Print Assumptions C01_constructor.
